@@ -88,11 +88,11 @@ RENDER_CANON = _os.environ.get("MPSA_RENDER_CANON", "1") == "1"
 _CANON_DEFAULT = RENDER_CANON
 # rules whose tables were frozen against the source orientation of comparisons (`b > a`, `0 == x`); every other rule sees
 # relational operators in canonical form (`a < b`, operands of == / != in lexicographic order)
-RAW_CANON_RULES = {"C06.K1", "C05.S1", "C07.E2", "C07.G1", "C01.D1", "C01.K1", "C01.L1", "C01.M1", "C01.P2", "C01.X1", "C01.K2", "C01.H1", "C01.H2", "C02.G2", "C02.R0", "C03.W2", "C04.E1", "C05.G1",
+RAW_CANON_RULES = {"C01.T2", "C06.K1", "C05.S1", "C07.E2", "C07.G1", "C01.D1", "C01.K1", "C01.L1", "C01.M1", "C01.P2", "C01.X1", "C01.K2", "C01.H1", "C01.H2", "C02.G2", "C02.R0", "C03.W2", "C04.E1", "C05.G1",
                    "C06.B1", "C06.G1", "C06.R1", "C09.M1", "C09.P4", "C12.F1", "C12.R1", "C13.G1", "C14.B2", "C14.G1", "C19.G1", "C19.S1"}
 _RENDER_DEFAULT = RENDER_EXPAND
 # rules whose tables were frozen against the unexpanded text (locals by name); everything else sees stable locals expanded
-RAW_RENDER_RULES = {"C06.K1", "C01.X1", "C06.G1", "C06.R1", "C01.H2", "C01.K1", "C01.K2", "C01.L1", "C01.P2", "C04.T1", "C05.T2", "C06.B1", "C07.H1",
+RAW_RENDER_RULES = {"C01.T2", "C06.K1", "C01.X1", "C06.G1", "C06.R1", "C01.H2", "C01.K1", "C01.K2", "C01.L1", "C01.P2", "C04.T1", "C05.T2", "C06.B1", "C07.H1",
                     "C10.U1", "C11.V1", "C13.D1", "C19.S1", "C20.P1", "C20.P3"}
 
 
